@@ -65,3 +65,69 @@ pub fn iter_seq_pairs<'a, K, V, S>(m: &'a HashMap<K, V, S>) -> (v: Vec<(&'a K, &
         v@.len() == map_seq_view(*m).len(),
         forall|i: int| 0 <= i < v@.len() ==> (*(#[trigger] v@[i]).0, *v@[i].1) == map_seq_view(*m)[i],
 { unimplemented!() }
+
+// ---- additions for unit RW (rules C_MAP_COLLECT_*); full paths: including units need no new `use` ----
+// `Vec<T>` derefs to `[T]`: `v.iter()` is slice::iter, "from start to end"
+impl<T> IterSeq for Vec<T> {
+    type Item = T;
+    open spec fn seq_view(&self) -> Seq<T> { self@ }
+}
+#[verifier::external]
+impl<T> IterSeqExec for Vec<T> { fn iter_seq_exec(&self) -> Vec<&T> { self.iter().collect() } }
+// std: VecDeque::iter "Returns a front-to-back iterator."
+impl<T> IterSeq for std::collections::VecDeque<T> {
+    type Item = T;
+    open spec fn seq_view(&self) -> Seq<T> { self@ }
+}
+#[verifier::external]
+impl<T> IterSeqExec for std::collections::VecDeque<T> { fn iter_seq_exec(&self) -> Vec<&T> { self.iter().collect() } }
+
+// entries of a map in the order `m.iter()` yields them
+pub trait IterPairs {
+    type K;
+    type V;
+    spec fn pair_view(&self) -> Seq<(Self::K, Self::V)>;
+}
+impl<K, V> IterPairs for std::collections::BTreeMap<K, V> {
+    type K = K;
+    type V = V;
+    // std: BTreeMap::iter "Gets an iterator over the entries of the map, sorted by key.": every entry
+    // exactly once (axiom_btreemap_seq; the order itself is not used)
+    uninterp spec fn pair_view(&self) -> Seq<(K, V)>;
+}
+#[verifier::external_body]
+pub proof fn axiom_btreemap_seq<K, V>(m: std::collections::BTreeMap<K, V>)
+    ensures
+        m.pair_view().map_values(|p: (K, V)| p.0).no_duplicates(),
+        forall|k: K, v: V| m.pair_view().contains((k, v)) <==> (m@.contains_key(k) && m@[k] == v),
+{}
+#[verifier::external_body]
+pub fn iter_pairs<'a, C: IterPairs>(m: &'a C) -> (v: Vec<(&'a <C as IterPairs>::K, &'a <C as IterPairs>::V)>)
+    ensures
+        v@.len() == m.pair_view().len(),
+        forall|i: int| 0 <= i < v@.len() ==> (*(#[trigger] v@[i]).0, *v@[i].1) == m.pair_view()[i],
+{ unimplemented!() }
+impl<K, V, S> IterPairs for HashMap<K, V, S> {
+    type K = K;
+    type V = V;
+    // HashMap::iter: "arbitrary order" - the sequence `map_seq_view` above (axiom_hashmap_seq)
+    open spec fn pair_view(&self) -> Seq<(K, V)> { map_seq_view(*self) }
+}
+
+// std, `impl FromIterator<T> for HashSet<T, S> where S: BuildHasher + Default`: the set of the items
+// (rule C_STD_FROM_ITER; like every vstd HashSet spec, under the key-model preconditions)
+#[verifier::external_body]
+pub fn hashset_from_vec<T: Eq + core::hash::Hash, S: core::hash::BuildHasher + Default>(items: Vec<T>) -> (r: HashSet<T, S>)
+    ensures vstd::std_specs::hash::obeys_key_model::<T>() && vstd::std_specs::hash::builds_valid_hashers::<S>() ==> r@ == items@.to_set()
+{ items.into_iter().collect() }
+// std, `impl FromIterator<(K, V)> for HashMap<K, V, S>`: "If the iterator produces any pairs with equal
+// keys, all but one of the corresponding values will be dropped": specified only for pairwise
+// different keys, where every pair is kept
+#[verifier::external_body]
+pub fn hashmap_from_vec<K: Eq + core::hash::Hash, V, S: core::hash::BuildHasher + Default>(items: Vec<(K, V)>) -> (r: HashMap<K, V, S>)
+    ensures vstd::std_specs::hash::obeys_key_model::<K>() && vstd::std_specs::hash::builds_valid_hashers::<S>()
+        && items@.map_values(|p: (K, V)| p.0).no_duplicates() ==> {
+            &&& r@.dom() == items@.map_values(|p: (K, V)| p.0).to_set()
+            &&& forall|i: int| 0 <= i < items@.len() ==> r@[(#[trigger] items@[i]).0] == items@[i].1
+        }
+{ items.into_iter().collect() }
